@@ -366,11 +366,11 @@ pub fn run_scenario(
             Err(_) => None, // the caller cannot even form a witness: no proof
             Ok(w) => {
                 let mut ext = RngModel::new(mb["rng"].as_str().unwrap_or("chacha"), ctx.run_seed ^ sidx ^ ((mi as u64) << 32));
-                let mut tr = Transcript::new(label_bytes(label));
                 if rec.is_some() {
                     merlin::trace::start();
                     grec_start();
                 }
+                let mut tr = Transcript::new(label_bytes(label));
                 let r = catch_unwind(AssertUnwindSafe(|| RangeProof::<P>::prove_with_rng(&mut tr, &stmt, &w, &mut ext)));
                 let (mev, gev) = if rec.is_some() { (merlin::trace::stop(), grec_stop()) } else { (vec![], Default::default()) };
                 match r {
@@ -542,6 +542,10 @@ pub fn run_scenario(
     let skew: Vec<i64> = sc["skew"].as_array().unwrap().iter().map(|x| x.as_i64().unwrap()).collect();
     let k = stmts.len() as i64;
     let resize = |len: i64| -> usize { (k + len).max(0) as usize };
+    if rec.is_some() {
+        merlin::trace::start();
+        grec_start();
+    }
     let mut transcripts: Vec<Transcript> = labels.iter().map(|l| Transcript::new(label_bytes(*l))).collect();
     while stmts.len() < resize(skew[0]) {
         stmts.push(stmts.last().unwrap().clone());
@@ -558,10 +562,6 @@ pub fn run_scenario(
 
     let mode = mode_of(sc["mode"].as_str().unwrap());
     out.real_len = stmts.len();
-    if rec.is_some() {
-        merlin::trace::start();
-        grec_start();
-    }
     let r = catch_unwind(AssertUnwindSafe(|| RangeProof::<P>::verify_batch(&mut transcripts, &stmts, &vproofs, mode)));
     let (mev, gev) = if rec.is_some() { (merlin::trace::stop(), grec_stop()) } else { (vec![], Default::default()) };
     match r {
